@@ -39,6 +39,8 @@ SUBCLASS = z3.Function("is_subclass", Val, Val, B_)
 DKEYS = z3.Function("dict_keys", I_, z3.SeqSort(Val))
 DGET = z3.Function("dict_get", I_, Val, Val)
 DHAS_ = z3.Function("dict_has", I_, Val, B_)
+NONFINITE = z3.Function("float_is_inf_or_nan", Val, B_)  # an F value that stands for inf / -inf / nan (e.g. float("inf"), 1e999)
+ISNAN = z3.Function("float_is_nan", Val, B_)
 VT_HASVAL = z3.Function("valid_types_has_value", Val, Val, B_)
 VT_HASKEY = z3.Function("valid_types_has_key", Val, Val, B_)
 VT_GET = z3.Function("valid_types_get", Val, Val, Val)
@@ -209,7 +211,10 @@ class DynMixin(object):
         for r in self._cases(st, [
             (Val.is_I(t), dyn(t)),
             (Val.is_B(t), dyn(Val.I(z3.If(Val.bval(t), 1, 0)))),
-            (Val.is_F(t), dyn(Val.I(trunc))),
+            (z3.And(Val.is_F(t), z3.Not(NONFINITE(t))), dyn(Val.I(trunc))),
+            # floats are modelled as reals (A-REAL); the one place where inf / nan change control flow is int(): OverflowError / ValueError
+            (z3.And(Val.is_F(t), NONFINITE(t), z3.Not(ISNAN(t))), lambda s: Raised(self.make_exc(s, "OverflowError", msg="cannot convert float infinity to integer"))),
+            (z3.And(Val.is_F(t), NONFINITE(t), ISNAN(t)), lambda s: Raised(self.make_exc(s, "ValueError", msg="cannot convert float NaN to integer"))),
             (z3.And(Val.is_S(t), INTLIT(Val.sval(t))), dyn(Val.I(STR2INT(Val.sval(t))))),
             (z3.And(Val.is_S(t), z3.Not(INTLIT(Val.sval(t)))), lambda s: Raised(self.make_exc(s, "ValueError", msg="invalid literal for int()"))),
             (z3.Or(Val.is_N(t), Val.is_L(t), Val.is_D(t), Val.is_O(t), Val.is_T(t)),
@@ -382,6 +387,8 @@ class DynMixin(object):
         p = args[0].t
         v = self.to_dyn(st, args[1])
         ok = CLEAN_OK(p, v)
+        ln = args[3] if len(args) > 3 else kw.get("lineno")
+        st.log.append(("param-clean", p, v, args[2] if len(args) > 2 else kw.get("program"), ln))
         s1 = st.fork()
         s1.assume(ok)
         if self.feasible(s1):
@@ -390,7 +397,7 @@ class DynMixin(object):
         s2.assume(z3.Not(ok))
         if self.feasible(s2):
             # behavioural contract of every Parameter.clean: only the parameter-error family escapes
-            yield s2, Raised(ExcSym("ProgramError", fields={"lineno": args[3] if len(args) > 3 else None}))
+            yield s2, Raised(ExcSym("ProgramError", fields={"lineno": ln, "origin": "clean@" + (self.frames[-1].key if self.frames else "?")}))
 
     def bi_dyn_param_accepts(self, st, args, kw):
         yield st, Sym("bool", ACCEPTS(args[0].t, self.to_dyn(st, args[1])))
